@@ -2,7 +2,10 @@
 # Build the framework offline from files on disk and pre-warm the build cache.
 cd /verif || exit 2
 . ./scripts/env.sh
-mkdir -p .build .gocache evidence replays
+mkdir -p .build/bin .gocache evidence replays
 cp /repo/go.sum ./go.sum
 go build -o .build/owcheck ./cmd/owcheck || exit 1
+(cd /repo && go build -o /verif/.build/bin/genny github.com/joelrahman/genny) || exit 1
+(cd /repo && go build -buildmode=c-shared -o /verif/.build/libopenwater.so ./libopenwater) || exit 1
+gcc -O1 -o .build/cabi_driver cabi/driver.c -ldl || exit 1
 echo setup ok
